@@ -30,7 +30,7 @@ fn date_txt(r: &mut Rng) -> String {
 }
 fn frac_txt(r: &mut Rng) -> String {
     if r.chance(1, 2) { return String::new(); }
-    let n = r.range(1, 9) as usize;
+    let n = if r.chance(1, 3) { 9 } else { r.range(1, 9) as usize };   // the longest allowed fraction is a boundary of the grammar
     let mut s = String::from(if r.chance(4, 5) { "." } else { "," });
     for _ in 0..n { s.push(char::from(b'0' + r.range(0, 9) as u8)); }
     s
